@@ -380,6 +380,26 @@ func c01Alphabet(w *stdWorld, full bool) []dgCase {
 			}
 		}
 	}
+	// devices with undecodable keys: a report naming one, signed by every key in the system, three times in a row
+	// (a verification that fails on the key itself must fail the same way every time), then a genuine report of A
+	// and the same again
+	for round := 0; round < 2; round++ {
+		for _, zid := range []uint32{5, 6} {
+			for _, sg := range signers {
+				t := now
+				if t < off {
+					t = off
+				}
+				dg := signedReport(zid, uint32(t), 7, sg.priv)
+				for k := 0; k < 3; k++ {
+					out = append(out, dgCase{fmt.Sprintf("dev=undecodable-key-%d signer=%s repeat=%d", zid, sg.name, k), dg, fmt.Sprintf("foreign-key/dev=undecodable-key/repeat=%d", k)})
+				}
+			}
+		}
+		if now >= off && now+int64(round) < off+mWindow {
+			out = append(out, dgCase{fmt.Sprintf("dev=A signer=A between the undecodable-key rounds %d", round), signedReport(1, uint32(now)+uint32(round)+200, 9, w.A.Priv), "own-key/between-undecodable"})
+		}
+	}
 	// One fresh valid in-window report for B: all single-bit flips, lengths, extensions, swaps.
 	freshTs := now
 	if freshTs < off {
@@ -470,6 +490,18 @@ func c01RunJob(j c01Job) (rep *jobReport) {
 			w.Cleanup()
 		}
 	}()
+	// two devices whose public keys are not points of the curve (all zero; all ones): the server authorizes them
+	// like any other, nobody can ever sign for them
+	var ones keyPair
+	for i := range ones.Pub {
+		ones.Pub[i] = 0xFF
+	}
+	for id, k := range map[uint32]keyPair{5: {}, 6: ones} {
+		if code, out := w.doAuthorize(w.signAuth(authFor(id, k, 1000), w.GCA.Priv)); code != 200 || out != authAdded {
+			rep.fail("harness/setup", fmt.Sprintf("authorization of the device with an undecodable key (id %d) answered %d", id, code))
+			return
+		}
+	}
 	for i := 0; i < j.Rotations; i++ {
 		w.rotate()
 	}
